@@ -142,6 +142,10 @@ class C09(Check):
         if tier != "quick":
             seqs += [(a, b, d) for a in full[::2] for b in fl[::2] for d in fl[::3]]
             seqs += [(a, p1, b, p2) for a in full[::4] for p1 in part[::3] for b in bad[::2] for p2 in part[1::4]]
+            # every sequence of three accepted assignments, and rejected inputs between two partial updates
+            have = set(seqs)
+            seqs += [t_ for t_ in ((a, b, d) for a in full for b in fl for d in fl) if t_ not in have]
+            seqs += [(a, p1, b, p2) for a in full[1::4] for p1 in part for b in bad for p2 in part[::2]]
         self.n_seq = len(seqs)
         return [seq_unit(ch, i, True) for i, ch in enumerate(chunks(seqs, 16 if tier == "quick" else 48))]
 
